@@ -4,6 +4,7 @@ import (
 	"fmt"
 	"go/constant"
 	"go/types"
+	"strings"
 
 	"golang.org/x/tools/go/ssa"
 
@@ -15,6 +16,8 @@ func init() { register("C17", "other", runC17) }
 const specJSName = `^[$_A-Za-z][$_A-Za-z0-9]*$`
 
 func runC17(p *Program, r *Report) {
+	engineConsistency(p, r, "C17.E", func(n string) bool { return strings.Contains(n, "jsIdentifierPattern") })
+
 	r.Trusted = []string{"go/types + go/ssa", "encoding/json.Marshal in HTML-safe mode emits no '<', '>', '&', U+2028, U+2029 and round-trips (property of encoding/json; the mode flag itself is re-read from the installed source)", "fmt.Sprintf %s copies string/[]byte operands verbatim"}
 	r.NotDecided = []string{"JSON round-trip and the exact escape set of encoding/json (trusted library behaviour)"}
 	r.Explain = "Decides the structural clauses: the exact frame constant and argument order of the Sprintf, that J is the result of encoding/json.Marshal (whose HTML-escaping flag is verified in the installed stdlib's SSA), that the name guard's regular language is inside the ASCII identifier language, and that every error path returns the zero Script with a non-nil error."
